@@ -10,8 +10,11 @@
   parameter updates, scalar re-wirings, array add/remove and reads of arbitrary nodes (rejected
   calls included; they leave the state alone) that keeps the graph acyclic (`Valid F g0 ops`; like
   the Go API the model has no cycle check, and a cycle makes `Outdated()` recurse forever).
-  PROCESSORS MAY SKIP INPUTS (`SNode.reads`; `fn` gets `none` for an input it did not pull, and the
-  from-scratch evaluation `Spec` skips the same inputs).  Freshness (`read_fresh`,
+  PROCESSORS MAY SKIP INPUTS AND PULL THEM IN ANY ORDER (`SNode.next`, a pull STRATEGY: from the
+  wiring and the entries pulled so far it names the next dependency to pull, or stops — a later
+  dependency first, an early return on a nil port, decisions on values read so far; at most one
+  pull per dependency slot; `fn` gets `none` for an input it did not pull, and the from-scratch
+  evaluation `Spec` follows the same strategy).  Freshness (`read_fresh`,
   `processed_is_fresh`), the frame, "executes only if outdated", `exec_only_if_changed` and the
   version accounting are proved for EVERY processor.  The guard `ReadsAll g0` (every `Process()`
   pulls all its wired inputs) is a hypothesis ONLY of the theorems that need a node to be
@@ -41,15 +44,15 @@ theorem reachable_inv (g0 : Graph V) (h0 : Init F g0) (ops : List (Op V)) (hv : 
 theorem spec_is_from_scratch (g : Graph V) (hac : Acyclic F g) (i : Nat) :
     Spec F g i = match g i with
       | .param x _ => x
-      | .struct s => s.fn s.scalars s.arrays (specPull (Spec F g) s.reads s.deps []) := by
+      | .struct s => s.fn s.scalars s.arrays
+          (specPullS (Spec F g) (s.next s.scalars s.arrays) s.deps s.deps.length (List.replicate s.deps.length none)) := by
   obtain ⟨rank, hwf⟩ := hac
   exact Spec_eq g hwf i
 
-/-- for a processor that reads all its inputs the entries are the from-scratch values of all
-    dependencies -/
+/-- a processor that reads all its inputs (strategy `nextAll`) gets an entry for every dependency -/
 theorem spec_reads_all (ev : Nat → V) (ds : List Nat) :
-    specPull ev (fun _ => true) ds [] = ds.map (fun d => some (ev d)) := by
-  simpa using specPull_all ev ds []
+    ∀ x ∈ specPullS ev nextAll ds ds.length (List.replicate ds.length none), x.isNone = false :=
+  nextAll_fills ev ds ds.length _ (by simp) (by simp [List.countP_replicate])
 
 /-- likewise `Outdated` is `Struct.Outdated()`: the fuel never runs out on an acyclic graph -/
 theorem outdated_is_outdated (g : Graph V) (hac : Acyclic F g) (i : Nat) :
@@ -69,7 +72,8 @@ theorem eval_is_value (g : Graph V) (hac : Acyclic F g) (i : Nat) :
       | .param _ _ => (g, [])
       | .struct s =>
         if Outdated F g i then
-          let r := pullM (Eval F) s.reads g s.deps []
+          let r := pullS (Eval F) (s.next s.scalars s.arrays) s.deps s.deps.length g
+            (List.replicate s.deps.length none)
           (r.1.set i (.struct (s.executed r.1 r.2.1)), r.2.2 ++ [(i, s.version + 1)])
         else (g, []) := by
   obtain ⟨rank, hwf⟩ := hac
@@ -276,9 +280,10 @@ def skipG : Graph Nat := fun i =>
                             | [some x, some y] => x + y + 1
                             | [some x, none] => x + 1
                             | _ => 0,
-                   reads := fun acc => match acc with
-                            | [some x] => decide (x > 0)
-                            | _ => true,
+                   next := fun _ _ es => match es with
+                            | [none, _] => some 0                              -- pull X first
+                            | [some x, none] => if x > 0 then some 1 else none -- pull Y only when X > 0
+                            | _ => none,
                    scalars := [some 0, some 2], arrays := [], cache := 0,
                    version := 0, remembered := none, flag := false }
   | _ => .param 0 0
